@@ -22,6 +22,8 @@ from .broker_rig import ts
 
 DAYS = [18263, 18264, 18267, 18269]            # must match MC_Market.D
 SYMBOL = "AAA"
+# spellings of the one symbol a case is about: upper case, lower case ending in letters of ".csv", dotted tickers
+SYMBOLS = ["AAA", "ivv", "abcs", "BRK.B", "aapl.us", "SPY", "xcsv"]
 RE_Q = re.compile(r'<<"Q", <<(\d), (\d), (\d), (\d)>>, (TRUE|FALSE), (\d+), <<(-?\d+), (\d+)>>>>')
 
 
@@ -103,6 +105,7 @@ def confront(job):
     out = []
     n = 0
     try:
+        SYMBOL = SYMBOLS[(sum(code) // 3) % len(SYMBOLS)]
         write_csv(os.path.join(d, SYMBOL + ".csv"), rows_of(code), rng)
         asset = "EQ:" + SYMBOL
         # other symbols in the same directory (their names extend / are a prefix of SYMBOL, their rows are other rows at
@@ -183,10 +186,19 @@ def _pair_job(job):
     d1, d2 = tempfile.mkdtemp(prefix="qsv-mk1-"), tempfile.mkdtemp(prefix="qsv-mk2-")
     out, n = [], 0
     try:
+        SYMBOL = SYMBOLS[(sum(code) // 2) % len(SYMBOLS)]
         write_csv(os.path.join(d1, SYMBOL + ".csv"), rows_of(code[:4]), rng)
         write_csv(os.path.join(d2, SYMBOL + ".csv"), rows_of(code[4:]), rng)
+        # for every other pair a source that does not know the symbol at all stands in FRONT of the two (in the
+        # specification: a source answering NaN at every instant, which FirstNonNaN passes over)
+        stranger = sum(code) % 2 == 1
+        if stranger:
+            os.mkdir(os.path.join(d1, "other"))
+            write_csv(os.path.join(d1, "other", "ZZZ.csv"), rows_of(code[4:]), rng)
         for adjust in (False, True):
             srcs = [CSVDailyBarDataSource(d, Equity, adjust_prices=adjust, csv_symbols=[SYMBOL]) for d in (d1, d2)]
+            if stranger:
+                srcs.insert(0, CSVDailyBarDataSource(os.path.join(d1, "other"), Equity, adjust_prices=adjust))
             dh = BacktestDataHandler(None, data_sources=srcs)
             for t, e in sorted(exp[adjust].items()):
                 T = ts(t)
@@ -195,8 +207,8 @@ def _pair_job(job):
                 n += 1
                 for k, v in got.items():
                     if not _same(v, e):
-                        out.append((code, adjust, t, "handler(2 sources)." + k, "returned %r, expected %s" % (
-                            float(v), "NaN" if e[1] == 0 else "%d/%d" % e)))
+                        out.append((code, adjust, t, "handler(%s)." % ("a source without the symbol + 2 sources" if stranger else "2 sources") + k,
+                                    "returned %r, expected %s" % (float(v), "NaN" if e[1] == 0 else "%d/%d" % e)))
     finally:
         shutil.rmtree(d1, ignore_errors=True)
         shutil.rmtree(d2, ignore_errors=True)
